@@ -29,7 +29,8 @@ from ..core import Check
 
 THEOREMS = {n: "Props.C03" for n in [
     "C03_index_consistent", "C03_report_exact", "C03_reject_unchanged",
-    "C03_every_new_simplex_has_pt", "C03_vertices_appended_once"]}
+    "C03_every_new_simplex_has_pt", "C03_vertices_appended_once",
+    "C03_old_facets_stay_le2", "C03_first_overlap_at_new_vertex", "C03_simplices_sorted_nodup"]}
 
 PREAMBLE = """From Coq Require Import List. Import ListNotations.
 From AV Require Import Base.Prelude Model.Tri Run.TriRun.
@@ -423,6 +424,20 @@ class Oracle:
             n = len(before[0])
             if any(n not in s for s in ad):
                 self.err("every_new_simplex_has_pt", f"a created simplex does not contain the new vertex {n}", step)
+            # C03_old_facets_stay_le2 / C03_first_overlap_at_new_vertex (proved for the model, for every outcome of
+            # every predicate): a facet WITHOUT the new vertex that was in at most two simplices is in at most two
+            # afterwards.  Read off the real object; independent of all tolerances, never discarded.
+            cb, ca = {}, {}
+            for ss, cnt in ((b, cb), (a_, ca)):
+                for s in ss:
+                    for f in itertools.combinations(s, self.d):
+                        cnt[f] = cnt.get(f, 0) + 1
+            self.old_facets_checked = getattr(self, "old_facets_checked", 0) + len(ca)
+            for f, c in ca.items():
+                if c > 2 and n not in f and cb.get(f, 0) <= 2:
+                    self.err("old_facet_overlap", f"facet {f} without the new vertex {n} was in {cb.get(f, 0)} simplices and is "
+                                                  f"in {c} after the insertion (theorem C03_old_facets_stay_le2 of the model)", step)
+                    break
         elif out not in ("OutsideSimplex", "AlreadyVertex", "InsideHull"):
             self.err("internal_error", f"add_point raised {out}", step)
         if volume:
@@ -653,6 +668,7 @@ def run(chk: Check) -> int:
                     tot["hull_extension_deleting_old_simplices"] += 1
         tot["steps"] += len(run_["steps"])
         tot["pred_checked"] += orc.pred_checked
+        tot["old_facets_checked"] = tot.get("old_facets_checked", 0) + getattr(orc, "old_facets_checked", 0)
         tot["fragile_decisions"] += orc.fragile
         tot["fragile_cases"] += bool(orc.fragile)
         tot["general_position_cases"] += bool(run_["general"])
@@ -728,8 +744,9 @@ def run(chk: Check) -> int:
                       "verdicts_discarded_as_fragile_by_clause": discarded,
                       "legal_histories_per_coq": legal, "cases_compared_in_coq": len(cases), "mismatches": len(mism),
                       "exhaustive": False,
-                      "not_proved": "C03_tiling_partial: facet multiplicity <= 2, volumes = hull volume, Delaunay -- "
-                                    "decided per run by the exact oracle only"})
+                      "not_proved": "C03_tiling_partial: facet multiplicity <= 2 AT THE NEW VERTEX (facets without it: proved, "
+                                    "C03_old_facets_stay_le2), volumes = hull volume, Delaunay -- decided per run by the "
+                                    "exact oracle only"})
     chk.log(f"correspondence: {len(cases)} cases / {tot['steps']} insertions, {len(mism)} mismatches, {legal} legal; "
             f"predicates tied to exact arithmetic: {tot['pred_checked']} ({tot['fragile_decisions']} fragile discarded); "
             f"oracle failures {len(chk.failures)}")
@@ -743,8 +760,11 @@ def run(chk: Check) -> int:
              "translated by 10 .. 3e4 (4-D: <= 100) from the origin; "
              "non-trivial = at least one hull extension, one insertion deleting >= 2 simplices and one rejection; distinct by "
              "(points, hints, transform)",
-        assumptions=["PARTIAL: the Coq theorems cover the combinatorial bookkeeping for all predicate outcomes; tiling, "
-                     "volumes and Delaunay are checked per run by the exact-rational oracle only",
+        assumptions=["PARTIAL: the Coq theorems cover the combinatorial bookkeeping for all predicate outcomes, incl. facet "
+                     "multiplicity <= 2 for every facet that does not contain the vertex being inserted (so an overlap can "
+                     "only start at the new vertex; read off the real object after every accepted insertion as clause "
+                     "'old_facet_overlap'); multiplicity at the new vertex, volumes and Delaunay are checked per run by the "
+                     "exact-rational oracle only",
                      "hand-written model Model/Tri.v tied to the code by the sampled correspondence (predicate outcomes "
                      "recorded from the real run) and by the exact-arithmetic tie of each recorded predicate",
                      "domain: the triangulation the point is inserted into is Delaunay in the metric used (single initial "
